@@ -520,6 +520,9 @@ def gen_lap_edges(src, tree, out, parts):
     envz = Env(LAP, special=len_special({"mesh.face_corners": ("Z", "ncorners")}))
     ncoeffs = zexpr(find_assign(LAP, b, "n_coeffs"), envz)
     roles, kws = coo_roles(LAP, find_assign(LAP, b, "mat"))
+    if ast.unparse(find_assign(LAP, b, "m")) != "len(mesh.edges)":
+        T.fail(LAP, fn, "m is not the edge count")
+    lape_shape = shape_kw(LAP, kws, Env(LAP, znames={"m"}))
     loop = only_for(LAP, b, "laplacian_edges")
     cnr, cur = enumerate_loop(LAP, loop, "mesh.face_corners")
     lb = loop.body
@@ -566,6 +569,7 @@ def gen_lap_edges(src, tree, out, parts):
     nextname = [k for k, v in which.items() if v == "next_corner"][0]
     out.append("(* ---- laplacian_op.laplacian_edges *)")
     out.append("Definition lape_ncoeffs (ncorners : Z) : Z := %s." % ncoeffs)
+    out.append("Definition lape_shape (m : Z) : Z * Z := %s." % lape_shape)
     out.append("Definition lape_coeff_cotan (cot_cnr : NUM_) : NUM_ := %s." % c_cot)
     out.append("Definition lape_coeff_uniform : NUM_ := %s." % c_uni)
     out.append("Definition lape_e1e2 (eid : Z -> Z -> Z) %s : Z * Z := (%s, %s)." % (binders([prevname, cur, nextname], "Z"), eargs[0], eargs[1]))
